@@ -172,6 +172,23 @@ func (e *c23Env) eventConstName(info *types.Info, x ast.Expr) string {
 	return ""
 }
 
+// eventConstsAssigned: the event constants a right-hand side stores: the constant itself, or the elements of
+// append(events, const…) when the detection collects a set of events.
+func (e *c23Env) eventConstsAssigned(info *types.Info, r ast.Expr) []string {
+	if nm := e.eventConstName(info, r); nm != "" {
+		return []string{nm}
+	}
+	var out []string
+	if call, ok := ast.Unparen(r).(*ast.CallExpr); ok && IsBuiltinCall(info, call, "append") && len(call.Args) >= 2 {
+		for _, a := range call.Args[1:] {
+			if nm := e.eventConstName(info, a); nm != "" {
+				out = append(out, nm)
+			}
+		}
+	}
+	return out
+}
+
 // c23TypeSwitchArms reads the type switches of fd whose arms satisfy pick (which returns the events an arm names).
 func c23TypeSwitchArms(e *c23Env, fd *ast.FuncDecl, pick func(cc *ast.CaseClause) map[string]bool) (*ast.TypeSwitchStmt, []c23Arm) {
 	info := e.anPk.TypesInfo
@@ -228,7 +245,7 @@ func c23RunPlace(e *c23Env) {
 			ast.Inspect(s, func(n ast.Node) bool {
 				if as, ok := n.(*ast.AssignStmt); ok {
 					for _, r := range as.Rhs {
-						if nm := e.eventConstName(ainfo, r); nm != "" {
+						for _, nm := range e.eventConstsAssigned(ainfo, r) {
 							out[nm] = true
 						}
 					}
@@ -423,6 +440,7 @@ func c23PlacementArm(e *c23Env, arm c23Arm, node string, newExec *types.Func, be
 		c.Undecided("C23-T3", keyB, arm.clause.Pos(), "no if/else on the trigger time (compared with the BEFORE constant) in this arm: placement not readable")
 		return
 	}
+	c23TriggerMatchesNode(e, arm, node, nObj, timeIf)
 	var beforeBr, afterBr ast.Node = timeIf.Body, timeIf.Else
 	if !beforeIsThen {
 		beforeBr, afterBr = timeIf.Else, timeIf.Body
@@ -656,4 +674,116 @@ func c23RowWidth(e *c23Env, k c23DML, ev string, width int) {
 		}
 	}
 	walk(next)
+}
+
+// c23TriggerMatchesNode: a placement arm runs for every node of its kind in the analysed subtree and for every selected
+// trigger. The subtree can hold DML nodes of several kinds and tables (branches of an IF inside a trigger body), so the arm
+// itself must test that this trigger is defined for this node's event and table before it builds an executor: an if
+// statement in front of (early return) or around the BEFORE/AFTER branches whose condition involves both the trigger and
+// the node — the trigger's event and table fields directly, or a helper that is given the trigger and reads both fields.
+func c23TriggerMatchesNode(e *c23Env, arm c23Arm, node string, nObj types.Object, timeIf *ast.IfStmt) {
+	c := e.c
+	info := e.anPk.TypesInfo
+	key := e.nm.applyOneFn + "/" + node + "/trigger-matches-node"
+	_, oneFd := c.P.FuncDecl(e.nm.anRel, e.nm.applyOneFn)
+	var trigObj types.Object
+	for _, f := range oneFd.Type.Params.List {
+		if c23IsNamed(info.TypeOf(f.Type), e.planPk, e.nm.createNode) && len(f.Names) == 1 {
+			trigObj = info.Defs[f.Names[0]]
+		}
+	}
+	if trigObj == nil {
+		c.Undecided("C23-T3", key, arm.clause.Pos(), "no *plan."+e.nm.createNode+" parameter in "+e.nm.applyOneFn)
+		return
+	}
+	// fieldsRead: which of (event, table) fields of the CreateTrigger object `obj` are read inside n (following one level of
+	// package-local helper calls that are given obj)
+	var fieldsRead func(pkInfo *types.Info, n ast.Node, obj types.Object, depth int) (ev, tbl bool)
+	fieldsRead = func(pkInfo *types.Info, n ast.Node, obj types.Object, depth int) (ev, tbl bool) {
+		ast.Inspect(n, func(k ast.Node) bool {
+			switch x := k.(type) {
+			case *ast.SelectorExpr:
+				if c23Obj(pkInfo, x.X) == obj {
+					switch x.Sel.Name {
+					case "TriggerEvent":
+						ev = true
+					case "Table":
+						tbl = true
+					}
+				}
+			case *ast.CallExpr:
+				if depth >= 2 {
+					return true
+				}
+				fn := Callee(pkInfo, x)
+				if fn == nil || fn.Pkg() != e.anPk.Types {
+					return true
+				}
+				fd := c.P.Decl(fn)
+				if fd == nil || fd.Body == nil {
+					return true
+				}
+				// which parameter receives obj?
+				i := 0
+				for _, f := range fd.Type.Params.List {
+					for _, nm := range f.Names {
+						if i < len(x.Args) && c23Obj(pkInfo, x.Args[i]) == obj {
+							e2, t2 := fieldsRead(info, fd.Body, info.Defs[nm], depth+1)
+							ev, tbl = ev || e2, tbl || t2
+						}
+						i++
+					}
+				}
+			}
+			return true
+		})
+		return
+	}
+	ev, tbl, usesNode, withoutNode := false, false, false, false
+	for _, s := range arm.clause.Body {
+		ast.Inspect(s, func(k ast.Node) bool {
+			is, ok := k.(*ast.IfStmt)
+			if !ok || is == timeIf {
+				return true
+			}
+			guards := false
+			if is.End() <= timeIf.Pos() && len(is.Body.List) > 0 {
+				if _, isRet := is.Body.List[len(is.Body.List)-1].(*ast.ReturnStmt); isRet {
+					guards = true // early return in front of the placement
+				}
+			}
+			if is.Body.Pos() <= timeIf.Pos() && timeIf.End() <= is.Body.End() {
+				guards = true // placement inside the then-branch
+			}
+			if !guards {
+				return true
+			}
+			e1, t1 := fieldsRead(info, is.Cond, trigObj, 0)
+			if !e1 && !t1 {
+				return true
+			}
+			// the same condition must involve this node
+			if c23Mentions(info, is.Cond, map[types.Object]bool{nObj: true}) {
+				usesNode = true
+				ev, tbl = ev || e1, tbl || t1
+			} else {
+				withoutNode = true
+			}
+			return true
+		})
+	}
+	switch {
+	case ev && tbl && usesNode:
+		c.Ok("C23-T3", key, arm.clause.Pos(), "the arm builds an executor only after testing the trigger's event and table against this node")
+	case !ev && !tbl && withoutNode:
+		c.Bad("C23-T3", key, arm.clause.Pos(), "the arm tests the trigger's event/table, but not against this node (the condition does not involve the node the executor is placed on)")
+	case !ev && !tbl:
+		c.Bad("C23-T3", key, arm.clause.Pos(), "the arm places the trigger on every plan."+node+" of the analysed subtree without testing that the trigger's event and table are this node's: applyTriggers detects one event / one table set for the whole subtree, so with DML nodes of several kinds or tables (IF branches in a trigger body) a trigger runs for rows of another event or table")
+	case !ev:
+		c.Bad("C23-T3", key, arm.clause.Pos(), "the arm tests the trigger's table but not its event against this node")
+	case !tbl:
+		c.Bad("C23-T3", key, arm.clause.Pos(), "the arm tests the trigger's event but not its table against this node")
+	default:
+		c.Bad("C23-T3", key, arm.clause.Pos(), "the test of the trigger's event and table does not involve this node")
+	}
 }
